@@ -32,8 +32,9 @@ class WorkloadMonitors:
         orig = gl.HybridLoad.__init__
         mon = self
 
-        def init(self_, raw_loads, bhe, radial_numerical, sim_params, years=None):
-            orig(self_, raw_loads, bhe, radial_numerical, sim_params, years=years)
+        def init(self_, raw_loads, bhe, radial_numerical, sim_params, *a_, **kw_):
+            orig(self_, raw_loads, bhe, radial_numerical, sim_params, *a_, **kw_)
+            years = kw_.get("years", a_[0] if a_ else None)
             if years is not None and len(years) > 1:
                 return
             try:
@@ -61,8 +62,8 @@ class WorkloadMonitors:
         orig = BaseGHE._simulate_detailed
         mon = self
 
-        def wrapped(self_, q_dot, time_values, g):
-            r = orig(self_, q_dot, time_values, g)
+        def wrapped(self_, q_dot, time_values, g, *a_, **kw_):
+            r = orig(self_, q_dot, time_values, g, *a_, **kw_)
             try:
                 t = np.asarray(time_values, dtype=float)
                 if len(t) <= 600 and np.all(np.diff(np.concatenate(([0.0], t))) > 0) and mon.hits["C09"] % 3 == 0:
@@ -89,9 +90,9 @@ class WorkloadMonitors:
         orig = rnb.RadialNumericalBH.calc_sts_g_functions
         mon = self
 
-        def calc(self_, single_u_tube, final_time=None):
+        def calc(self_, single_u_tube, *a_, **kw_):
             tap.reset()
-            r = orig(self_, single_u_tube, final_time=final_time)
+            r = orig(self_, single_u_tube, *a_, **kw_)
             try:
                 if tap.cells is not None and tap.nsteps > 0 and mon.hits["C10"] % 4 == 0:
                     v, _ = C10.judge_case(tap, self_, single_u_tube, False)
@@ -123,8 +124,9 @@ class WorkloadMonitors:
         mon = self
         state = {"n": 0}
 
-        def checked(contour, point, on_edge_tolerance=0.001):
-            r = orig(contour, point, on_edge_tolerance=on_edge_tolerance)
+        def checked(contour, point, *a_, **kw_):
+            r = orig(contour, point, *a_, **kw_)
+            on_edge_tolerance = kw_.get("on_edge_tolerance", a_[0] if a_ else 0.001)
             state["n"] += 1
             if state["n"] % every == 0:
                 try:
